@@ -177,7 +177,7 @@ def main(repo, out):
         arms = ' '.join('| %s => %s' % (n, tbl[n]) for n in names)
         return 'Definition %s (x : %s) := match x with %s end.\n' % (name, ty, arms)
     text = '(* GENERATED by gen/opclass.py from src/ast/mod.rs, src/passes/type_check.rs, src/context/defs.rs -- do not edit *)\n'
-    text += 'From TV Require Import Base.I32 Model.Ops Model.Typing.\n'
+    text += 'From TV Require Import Base.I32 Model.Ops Model.TypeCheck.\n'
     text += mk('gen_bin_class', 'binop', BINOPS, bin_class)
     text += mk('gen_un_class', 'unop', UNOPS, un_class)
     text += mk('gen_bin_req', 'opclass', classes, bin_req).replace(' end.', ' | OC_unrec => RQ_unrec end.')
